@@ -51,8 +51,24 @@ def gen_ops(ctx):
                 ops.append("rsz %s %s %d %d %d %d" % (vt, s, w, h, w, h))
             for _ in range(40 if th else 8):
                 ops.append("rsz %s %s %d %d %d %d" % (vt, s, r.range(1, 7), r.range(1, 7), r.range(1, 9), r.range(1, 9)))
-    # --- matrix3x2<double>
     def rnd(lo, hi): return lo + (hi - lo) * (r.below(1 << 30) / float(1 << 30))
+    def b32(x): return str(struct.unpack("<I", struct.pack("<f", float(x)))[0])
+    # --- constant and two-level sources at OFF-grid points (decimal, sevenths, random): all neighbours (nearly) equal, so the
+    #     rounding of the float weights is visible in the result (finding C17-bilinear-truncates-below-min)
+    ops.append("bilc g8 d 8 8 c 255 %s %s" % (bits(3.1452003430004312), bits(0.023078170235551899)))     # the Lean witness
+    ops.append("bilc g8 f 8 8 c 255 %s %s" % (b32(6.52790165), b32(5.04227161)))
+    LV = {"g8": [255, 1, 128, 200], "rgb8": [255, 77], "rgb8p": [255, 3], "g16": [65535, 1000, 40000], "g8s": [-100, 127, -127, 50]}
+    for i in range(4000 if th else 400):
+        vt = r.choice(sorted(LV)); F = "fd"[i % 2]; w, h = r.range(1, 8), r.range(1, 8)
+        pts = []
+        for _ in range(16):
+            m = r.below(10)
+            if m < 6: x, y = rnd(-1.2, w + 0.2), rnd(-1.2, h + 0.2)
+            elif m < 8: x, y = r.range(-12, 10 * w + 2) / 10.0, r.range(-12, 10 * h + 2) / 10.0
+            else: x, y = r.range(-8, 7 * w + 2) / 7.0, r.range(-2000, 1000 * h) / 1000.0
+            pts += [b32(x), b32(y)] if F == "f" else [bits(x), bits(y)]
+        ops.append("bilc %s %s %d %d %s %d %s" % (vt, F, w, h, "ct"[r.below(2)], r.choice(LV[vt]), " ".join(pts)))
+    # --- matrix3x2<double>
     # resample_pixels with arbitrary double matrices (rotation + scale + translation about the source): sample points off the grid,
     # compared with the model's repetition of the IEEE double operation sequence
     import math
@@ -94,6 +110,7 @@ def points_of(op):
     w = op.split()
     if w[0] in ("bil", "near", "tap"): return int(w[8])
     if w[0] in ("res", "rsz", "resf"): return int(w[5]) * int(w[6])
+    if w[0] == "bilc": return (len(w) - 7) // 2
     return 1
 
 ASSUME = [
@@ -104,7 +121,8 @@ ASSUME = [
     "sources are at least 1x1; point coordinates within the ptrdiff_t range (the casts in iround/ifloor are UB otherwise)",
     "scale_lanczos / lanczos_at (image_processing/scaling.hpp) are not part of the property's statement and are not modelled",
     "float evaluation of the bilinear sampler: proved RELATIVE TO FloatSpec only (Props/C17Float.lean, C17_float_*: weights sum within [1-6eps,1+7eps], lo-1 <= result <= hi); "
-    "OPEN FINDING outside this generator's reach: off the binary grid the truncating cast can return min-1 (constant 255 image -> 254, C17_float_truncates_below_min_witness)",
+    "known finding C17-bilinear-truncates-below-min: off the binary grid the truncating cast can return min-1 (constant 255 image -> 254, C17_float_truncates_below_min_witness); "
+    "reached by the `bilc` stratum (constant / two-level sources at decimal, seventh and random points), where the bit-exact Float / Float32 replay predicts it",
 ]
 
 def run(ctx, ops=None):
@@ -127,6 +145,13 @@ def run(ctx, ops=None):
             if o.split()[0] in ("bil", "near", "tap"):
                 for t in r.split(): toks["outside" if t == "o" else ("bad" if t == "X" else "sampled")] += 1
         extra["grid_points"] = dict(toks)
+        verdicts = vlib.run_driver(ctx, "drv_C17", "judge", [o + "\t" + r for o, r in zip(ops, impl)])
+        extra["verdicts_by_kind"] = dict(sorted(collections.Counter("%s:%s" % (o.split()[0], v) for o, v in zip(ops, verdicts)).items()))
+        below = sum(1 for o, r in zip(ops, impl) if o.startswith("bilc ") and o.split()[5] == "c"
+                    for t in r.split() if t not in ("o", "X") and any(int(c) != int(o.split()[6]) for c in t.split(",")))
+        total = sum(1 for o, r in zip(ops, impl) if o.startswith("bilc ") and o.split()[5] == "c" for t in r.split() if t not in ("o", "X"))
+        extra["constant_source_samples"] = total
+        extra["constant_source_samples_not_equal_to_the_constant"] = below
         taps = collections.Counter()
         for o, r in zip(ops, impl):
             if o.startswith("tap b"):
@@ -138,7 +163,7 @@ def run(ctx, ops=None):
     return vlib.finish(ctx, "proof", obligations, discharged,
         rule="op lines: both samplers on a coordinate-recording virtual view over the complete 1/8-pixel grid of [-2,w+1]x[-2,h+1] for 19 source shapes from 1x1 (every row), "
              "values on 8 view kinds (gray8 complete grid, both point types; the others every third row) and on 1, 1/2, 1/4 grids; resample_pixels with random affine maps with entries k/8 "
-             "(library loop vs direct sample() loop vs model); resample_pixels with random rotation-scale-translation double matrices (model repeats the IEEE operations); resize_view same size and other sizes; matrix3x2<double> product / associativity / inverse / transform / round trip / generators on random "
+             "(library loop vs direct sample() loop vs model); resample_pixels with random rotation-scale-translation double matrices (model repeats the IEEE operations); bilinear on constant / two-level sources at off-grid float and double points (Float32 / Float replay); resize_view same size and other sizes; matrix3x2<double> product / associativity / inverse / transform / round trip / generators on random "
              "well-conditioned matrices (bit patterns). non-trivial = grid row that crosses the view, non-identity map, any matrix op (distinct op lines counted)",
         samples=samples, distinct_nontrivial=distinct, assumptions=ASSUME, trusted_base=vlib.TRUSTED_BASE + [
             "no translated kernels for C17 (floating point templates): the model is hand-written and tied by the correspondence run only",
